@@ -10,6 +10,7 @@ stays cheap because it never iterates more than one step.
 from __future__ import annotations
 
 import json
+import math
 from fractions import Fraction as Fr
 
 import gen
@@ -103,6 +104,28 @@ def compare_final(c, mv, r, rtol):
         if mism:
             return mism, None
         worst = max(worst, w)
+    # the accessor solution.u.std must be the square root of the diagonal of the returned covariance (coefficient i, component a)
+    if "std_acc_error" in r:
+        return f"solution.u.std raised {r['std_acc_error']}", None
+    if "std_acc" in r:
+        q_, d_ = c["q"], c["d"]
+        for ti in range(T):
+            acc = r["std_acc"][ti]
+            if len(acc) != q_ + 1:
+                return f"solution.u.std has {len(acc)} coefficient entries, expected {q_ + 1}", None
+            for i in range(q_ + 1):
+                for a, got in enumerate(acc[i]):
+                    if c["kind"] == "dense":
+                        var = im[ti][1][i * d_ + a][i * d_ + a]
+                    elif c["kind"] == "iso":
+                        var = im[ti][1][i][i]
+                    else:
+                        var = im[ti * nb + a][1][i][i]
+                    want = math.sqrt(max(float(var), 0.0))
+                    smax = math.sqrt(max([abs(float(x)) for bl in im[ti * nb:(ti + 1) * nb] for row in bl[1] for x in row] + [0.0]))
+                    if not abs(got - want) <= 1e-8 * max(want, 1e-7 * smax) + 1e-300:
+                        return (f"solution.u.std t[{ti}] coefficient {i} component {a}: accessor returns {got!r} but the square root of the "
+                                f"diagonal of the returned covariance is {want!r}"), None
     final = mv[k:k + nb]
     # the solution's time axis and step counters: grid and 0..N
     if "t" in r and [float(x) for x in r["t"]] != [float(x) for x in c["grid"]]:
